@@ -60,6 +60,17 @@ impl Channel {
         headers: HeaderMap,
         body: Body,
     ) -> Result<Response<hyper::Body>, Error> {
+        #[cfg(datacake_verif)]
+        if crate::verif::enabled() {
+            return crate::verif::send(
+                self.remote_addr,
+                metadata.to_uri_path(),
+                headers,
+                body.into_inner(),
+            )
+            .await;
+        }
+
         let uri = format!("http://{}{}", self.remote_addr, metadata.to_uri_path(),);
         let mut request = Request::builder()
             .method(Method::POST)
